@@ -1735,19 +1735,30 @@ func (c *Ctx) separatorByCount(rule string, fi *FuncInfo, clause string) int {
 		if !isComma {
 			return true
 		}
-		var loop *ast.RangeStmt
+		var loopBody *ast.BlockStmt
+		var pos types.Object
 		for _, s := range stack {
-			if rs, isR := s.(*ast.RangeStmt); isR {
-				loop = rs
+			switch l := s.(type) {
+			case *ast.RangeStmt:
+				loopBody = l.Body
+				pos = nil
+				if l.Key != nil {
+					pos = identObj(info, l.Key)
+				}
+			case *ast.ForStmt:
+				loopBody = l.Body
+				pos = nil
+				if init, isAs := l.Init.(*ast.AssignStmt); isAs && len(init.Lhs) > 0 {
+					pos = identObj(info, init.Lhs[0])
+				}
 			}
 		}
-		if loop == nil {
+		if loopBody == nil {
 			return true
 		}
 		n++
 		key := fmt.Sprintf("%s/comma#%d", funcName(fi.Obj), n)
-		pos := identObj(info, loop.Key)
-		conds, _ := c.pathConds(info, loop.Body, call, false)
+		conds, _ := c.pathConds(info, loopBody, call, false)
 		bad := ""
 		for _, cd := range flattenConds(conds) {
 			if cd.Expr != nil && pos != nil && mentions(info, cd.Expr, pos) {
